@@ -193,8 +193,11 @@ func withClient(r *harness.Rig, lmtp bool, fn func(c *smtp.Client, w *harness.Wi
 	}
 	done := make(chan struct{})
 	go func() {
-		defer close(done)
-		defer r.Hub.Broadcast()
+		defer func() {
+			// close first, then wake the waiter (defers run last-in first-out)
+			close(done)
+			r.Hub.Broadcast()
+		}()
 		fn(cl, w)
 	}()
 	finished, stuck := false, false
